@@ -46,6 +46,7 @@ func runC19(c *Ctx) {
 	r.Rule("check-mode", "every call that writes a file in the formatter is control-dependent on the check flag being false")
 	r.Rule("json-reports", "every []byte returned by the JSON/SARIF report functions of internal/output is the result of encoding/json Marshal/MarshalIndent")
 	cmdRels := []string{"cmd/gosqlx/cmd", "cmd/gosqlx/internal/cmdutil", "cmd/gosqlx/internal/config", "cmd/gosqlx/internal/output", "cmd/gosqlx/internal/actioncmd", "cmd/gosqlx/internal/lspcmd", "cmd/gosqlx"}
+	dialectAgreement(c, "dialect-agreement", 1, append([]string{"cmd/gosqlx/internal/validate"}, cmdRels...)...)
 	fns := p.SrcFuncs(cmdRels...)
 	if len(fns) < 100 {
 		r.Fatal("anchor not found: cmd/gosqlx packages (only %d functions)", len(fns))
